@@ -1115,7 +1115,18 @@ for _n in ('floor', 'ceil', 'conjugate', 'negative', 'square', 'sign', 'cos', 's
     setattr(np, _n, _un(_n))
 np.conj = np.conjugate
 np.fix = lambda x, **k: (e_fix(x) if isinstance(x, SYM) else emap(e_fix, x)) if is_sym(x) else rnp.fix(x)
-np.round = lambda x, decimals=0, **k: (e_round(x) if isinstance(x, SYM) else emap(e_round, x)) if is_sym(x) else rnp.round(x, decimals)
+def _round(x, decimals=0, **k):
+    if is_sym(x):
+        if decimals:
+            sc = 10 ** decimals
+            f = lambda v: (e_round(v * sc) / sc) if isinstance(v, SNum) else rnp.round(v, decimals)
+        else:
+            f = e_round
+        return f(x) if isinstance(x, SYM) else emap(f, x)
+    return rnp.round(x, decimals)
+
+
+np.round = _round
 np.around = np.round
 np.trunc = np.fix
 for _n in ('add', 'subtract', 'multiply', 'divide', 'true_divide', 'floor_divide', 'power', 'maximum', 'minimum',
@@ -1538,6 +1549,27 @@ def _argext(which):
     return f
 
 
+def searchsorted(a, v, side='left', sorter=None):
+    if is_sym(a) or is_sym(v):
+        A = list(to_sarr(a).ravel())
+        def one(x):
+            # number of elements strictly smaller (left) / smaller or equal (right) than x in the sorted array: forks on comparisons
+            k = 0
+            for e in A:
+                c = _cmp('lt')(e, x) if side == 'left' else _cmp('le')(e, x)
+                if bool(c):
+                    k += 1
+                else:
+                    break
+            return k
+        if isinstance(v, (rnp.ndarray, list, tuple)):
+            return rnp.array([one(x) for x in to_sarr(v).ravel()]).reshape(rnp.shape(v))
+        return one(v)
+    return rnp.searchsorted(a, v, side=side, sorter=sorter)
+
+
+np.searchsorted = searchsorted
+np.asfortranarray = lambda a, **k: wrap(rnp.asfortranarray(to_sarr(a).view(rnp.ndarray))) if is_sym(a) else rnp.asfortranarray(a, **k)
 np.flatnonzero = lambda a: nonzero(to_sarr(a).ravel())[0] if is_sym(a) else rnp.flatnonzero(a)
 
 
